@@ -2763,3 +2763,76 @@ func smudgeDecidesFirst(c *Ctx, rule string) {
 			name+" can return before looking at its input ("+where+"): input that is not a pointer is not passed through when that early step fails")
 	}
 }
+
+// extensionCommandsOnlyFromTrustedConfig (C11): lfs.extension.<name>.clean/.smudge are commands git-lfs runs on
+// every clean and smudge. readGitConfig keeps them in a side table (the Extension records), which the generic
+// unsafe-key filter further down does not protect: the assignments of the command fields themselves must be
+// unreachable for a restricted source (.lfsconfig), i.e. lie behind the `OnlySafeKeys is false` edge.
+func extensionCommandsOnlyFromTrustedConfig(c *Ctx, rule string) {
+	p := c.P
+	fn := p.Fn("config", "readGitConfig")
+	if fn == nil {
+		c.Missing(rule, "config.readGitConfig", "not found")
+		return
+	}
+	pass := PassEdges(fn, func(cond ssa.Value) (bool, bool) {
+		if IsLoadOfField(cond, "git.ConfigurationSource", "OnlySafeKeys") {
+			return false, true
+		}
+		return false, false
+	})
+	n := 0
+	for _, b := range fn.Blocks {
+		for _, in := range b.Instrs {
+			st, ok := in.(*ssa.Store)
+			if !ok {
+				continue
+			}
+			fa, ok := st.Addr.(*ssa.FieldAddr)
+			if !ok {
+				continue
+			}
+			tn, f := fieldAddrName(fa)
+			if tn != "config.Extension" || (f != "Clean" && f != "Smudge") {
+				continue
+			}
+			n++
+			g, where := Guarded(fn.Blocks[0], st, pass, noReturnCommands)
+			c.Check(g && nonVacuous(pass), rule, "extension-command-needs-trusted-source:"+f, p.InstrPos(st), "the command of a filter extension is recorded only for an unrestricted source",
+				"readGitConfig can record the "+strings.ToLower(f)+" command of a filter extension for a restricted source ("+where+"): a repository's .lfsconfig then names a program that git-lfs runs on the next clean or smudge")
+		}
+	}
+	c.AtLeast(rule, "assignments of extension commands in readGitConfig", n, 2)
+}
+
+// noUserinfoOnRedirect (C10): net/http turns the userinfo of a request URL into a Basic Authorization header when
+// the request has none. Copying the original URL's User onto the URL of a redirected request therefore carries
+// the credentials to whatever host the server named, although the Authorization header itself is dropped. In
+// package lfshttp nothing assigns the User part of a URL.
+func noUserinfoOnRedirect(c *Ctx, rule string) {
+	p := c.P
+	n := 0
+	for _, fn := range p.RepoFuncs(func(path string) bool { return strings.HasSuffix(path, "/lfshttp") }) {
+		n++
+		for _, b := range fn.Blocks {
+			for _, in := range b.Instrs {
+				st, ok := in.(*ssa.Store)
+				if !ok {
+					continue
+				}
+				fa, ok := st.Addr.(*ssa.FieldAddr)
+				if !ok {
+					continue
+				}
+				if tn, f := fieldAddrName(fa); tn != "net/url.URL" || f != "User" {
+					continue
+				}
+				if IsNilConst(st.Val) {
+					continue
+				}
+				c.Bad(rule, "url-userinfo-assigned:"+FnName(fn), p.InstrPos(st), FnName(fn)+" assigns the userinfo of a request URL: net/http derives a Basic Authorization header from it, so credentials embedded in the configured URL follow a redirect to another host or port")
+			}
+		}
+	}
+	c.Check(n > 0, rule, "url-userinfo-never-assigned", "-", "no function of package lfshttp assigns URL.User", "package lfshttp not found")
+}
